@@ -110,3 +110,9 @@ Proof.
   unfold entry_daily_pnl, trading_pnl, position_pnl. rewrite (future_equity c _ K). rewrite HL. unfold md in HF.
   destruct (qeq_b (p_lold p) 0) eqn:E; [apply qeq_b_true in E; rewrite E in *|]; qnorm; lra.
 Qed.
+
+(* a flow into a portfolio without value is refused (no state is produced), every other flow is the neutral one *)
+Lemma deposit_refused_when_worthless p tv0 tv1 : qeq_b (unit_net_value p tv0) 0 = true -> pf_deposit_checked p tv0 tv1 = None.
+Proof. intros H. unfold pf_deposit_checked. rewrite H. reflexivity. Qed.
+Lemma deposit_accepted_otherwise p tv0 tv1 : qeq_b (unit_net_value p tv0) 0 = false -> pf_deposit_checked p tv0 tv1 = Some (pf_deposit p tv0 tv1).
+Proof. intros H. unfold pf_deposit_checked. rewrite H. reflexivity. Qed.
